@@ -7,6 +7,7 @@ import MafModel.Lemmas.FromLineAccept
 import MafModel.Lemmas.TextLemmas
 import MafModel.Lemmas.RenderValid
 import MafModel.Lemmas.SorterLemmas
+import MafModel.Lemmas.SortOrderLemmas
 import MafModel.Model.Writer
 open Py
 namespace Model
@@ -286,7 +287,8 @@ theorem Writer.write_of_scheme (C : Ctx) (K : HConsts) (w : Writer) (r : Record)
     · simp only [hsort]
       cases r'.render C <;> rfl
 
-/-- the key function of the sorter fails only with `KeyError` or `ValueError` -/
+/-- the key function of the sorter fails only with `KeyError` (missing coordinates, or a position
+    text that is not a number) or `ValueError` (chromosome missing from the contig list) -/
 theorem mkKey_error_kinds {o : Order} {cs : List Text} {l : Loc} {e : PyErr}
     (h : mkKey o cs l = .error e) : e = .key ∨ e = .value := by
   unfold mkKey at h
@@ -312,7 +314,7 @@ theorem mkKey_error_kinds {o : Order} {cs : List Text} {l : Loc} {e : PyErr}
         split at he
         · split at he
           · cases he
-          · simp only [Except.error.injEq] at he; exact Or.inr he.symm
+          · simp only [Except.error.injEq] at he; exact Or.inl he.symm
         · cases he
       · split at h
         · rename_i e' he
@@ -322,7 +324,7 @@ theorem mkKey_error_kinds {o : Order} {cs : List Text} {l : Loc} {e : PyErr}
           split at he
           · split at he
             · cases he
-            · simp only [Except.error.injEq] at he; exact Or.inr he.symm
+            · simp only [Except.error.injEq] at he; exact Or.inl he.symm
           · cases he
         · split at h <;> cases h
 
@@ -348,6 +350,44 @@ theorem Writer.keyOf_no_coords {K : HConsts} {w : Writer} {r : Record}
   · split
     · exact ⟨_, rfl, Or.inr rfl⟩
     · exact ⟨_, rfl, Or.inl rfl⟩
+
+/-- on a record that has its three coordinate columns the sorter's key is the key function's -/
+theorem Writer.keyOf_of_hasCoords {K : HConsts} {w : Writer} {r : Record}
+    (h : r.toLoc.hasCoords = true) :
+    w.keyOf K r = mkKey (w.header.sortOrder K).1 (w.header.sortOrder K).2 r.toLoc := by
+  unfold Writer.keyOf
+  simp only [h, if_true]
+
+/-- a record with its coordinate columns and a keyable chromosome whose start or end position is
+    a text that is not a number cannot be keyed: `KeyError` (like a missing coordinate column) -/
+theorem Writer.keyOf_bad_position {K : HConsts} {w : Writer} {r : Record}
+    (h0 : r.toLoc.hasCoords = true) (hc : r.toLoc.chrOk (w.header.sortOrder K).2)
+    (hp : r.toLoc.start.posOk = false ∨ r.toLoc.stop.posOk = false) :
+    w.keyOf K r = .error .key := by
+  rw [Writer.keyOf_of_hasCoords h0]
+  exact mkKey_bad_position h0 hc hp
+
+/-- the `ValueError` of the sorter's key function is the missing-contig error: it needs a contig
+    list, and (for a record with its coordinate columns) a chromosome that is not in it -/
+theorem Writer.keyOf_valueError {K : HConsts} {w : Writer} {r : Record}
+    (h : w.keyOf K r = .error .value) :
+    (w.header.sortOrder K).2 ≠ [] ∧
+    (r.toLoc.hasCoords = true →
+      ∀ s, r.toLoc.chrName = some s → s ∉ (w.header.sortOrder K).2) := by
+  cases h0 : r.toLoc.hasCoords with
+  | true =>
+    rw [Writer.keyOf_of_hasCoords h0] at h
+    have := mkKey_valueError_iff.1 h
+    exact ⟨this.2.1, fun _ => this.2.2⟩
+  | false =>
+    unfold Writer.keyOf at h
+    simp only [h0, Bool.false_eq_true, if_false] at h
+    split at h
+    · cases h
+    · split at h
+      · rename_i hk
+        exact ⟨(mkKey_valueError_iff.1 hk).2.1, fun h' => by cases h'⟩
+      · cases h
 
 /-- `validate` only replaces the error list: keys and renderings are those of the record -/
 theorem Writer.keyOf_validate (C : Ctx) (K : HConsts) (w : Writer) (r : Record) (m : Option Mode)
